@@ -31,7 +31,7 @@ ASSUME = [
     'reference machine transcribed from docs/proof-language.md with the conventions listed in DESIGN.md 2.1 (trusted)',
     'axiom schemas the document leaves unspecified (PropagationOr, PropagationExists, PreFixpoint, Singleton, Frame, KnasterTarski) are rejected',
 ]
-CFG = gens.Cfg(ids=(0, 1, 2), nsyms=2)
+CFG = gens.Cfg(ids=(0, 1, 2), nsyms=2, holes=True)
 
 ALPHABET = list(range(2, 31)) + [137, 0, 1, 31, 255, 127, 128]
 PREFIXES = {
@@ -115,6 +115,32 @@ def short_shard(stats: Stats, shard_i, nshards, seed, tier):
         stats.exhaustive_parts.append('short: every string of length <= %d over %d bytes x %d prefixes x 3 phases' % (maxlen, len(ALPHABET), len(PREFIXES)))
         if tier == 'thorough':
             stats.exhaustive_parts.append('short: every string of length 4 after prefixes proofs/mixed in gamma and proof phases')
+
+
+def trunc_shard(stats: Stats, shard_i, nshards, seed, tier):
+    """Every prefix of every variable-length instruction encoding (MetaVar with each combination of list lengths 0..2,
+    Instantiate with 0..3 ids), in each phase: a cut inside an operand must be rejected wherever it falls."""
+    if shard_i != 0:
+        return
+    instrs = []
+    for lens in itertools.product((0, 1, 2), repeat=5):
+        b = [9, 1]
+        for li, n in enumerate(lens):
+            b += [n] + [(li + j) % 3 for j in range(n)]
+        instrs.append((b'', bytes(b)))
+    for n in range(0, 4):
+        setup = bytes([2, 0]) * n + bytes([137, 0])
+        instrs.append((setup, bytes([26, n] + list(range(n)))))
+        instrs.append((setup + bytes([12]), bytes([26, n] + list(range(n)))))
+    cases = []
+    for setup, ins in instrs:
+        for k in range(0, len(ins) + 1):
+            for ph in range(3):
+                bufs = [b'', b'', b'']
+                bufs[ph] = setup + ins[:k]
+                cases.append(tuple(bufs))
+    compare(stats, cases, 'trunc', lambda i: ['trunc'], sample_every=4001)
+    stats.exhaustive_parts.append('trunc: every prefix of %d variable-length instruction encodings x 3 phases' % len(instrs))
 
 
 @st.composite
@@ -327,6 +353,8 @@ def run(tier, t0):
             stats.notes.append('a shipped proof is not accepted by the reference machine')
     if not stats.violations:
         common.run_sharded(stats, 'checks.c05', 'short_shard', common.NPROC, tier)
+    if not stats.violations:
+        common.run_sharded(stats, 'checks.c05', 'trunc_shard', common.NPROC, tier)
     if not stats.violations:
         common.run_sharded(stats, 'checks.c05', 'gen_shard', common.NPROC, tier)
     if not stats.violations:
